@@ -2944,6 +2944,15 @@ fn main() {
 	if mode == "all" || mode == "csend" {
 		more::concurrent_senders(&mut cx);
 	}
+	if mode == "all" || mode == "psend" {
+		more::peer_concurrent(&mut cx, &work);
+	}
+	if mode == "all" || mode == "overflow" {
+		more::channel_overflow(&mut cx);
+	}
+	if mode == "all" || mode == "wtime" {
+		more::write_timeouts(&mut cx);
+	}
 	if mode == "all" || mode == "hstime" {
 		more::handshake_timeouts(&mut cx);
 	}
